@@ -18,6 +18,9 @@ EXPLANATION = (
     "Token Display, peek_binop Token->BinOp against the operator spellings, numeric suffix names <-> IntType/FloatType; "
     "P4 the token recognisers are tried in the documented priority order."
 )
+EXPLANATION += (  # round-3 supplement
+    ' P5 the first line is skipped exactly when it starts with `#!`. P6 doubled braces are collapsed only on the f-string path. P7 integer literals are range-checked somewhere between parser and narrowing cast (known finding).'
+)
 ASSUMPTIONS = [
     "the language reference (docs/source/reference/language_reference.md) is the specification of precedence",
     "escape decoding is delegated to rustc_literal_escaper (trusted)",
